@@ -174,6 +174,7 @@ def gen_knobs(rng, prop, profile):
         "wide": wide,
         "fine_grained": bool(profile.get("fine_grained", False)) or (big and rng.random() < 0.04),
         "http_gzip": rng.random() < 0.4,  # does the simulated http server gzip-encode bodies (Content-Encoding)?
+        "http_no_length": rng.random() < 0.3,  # ... and does it stream without announcing a Content-Length?
     }
 
 
